@@ -135,9 +135,19 @@ fn simplify_column_predicates(predicates: Vec<Expr>) -> Result<Vec<Expr>> {
     let mut result = Vec::new();
 
     if !eq_predicates.is_empty() {
-        // If there are many equality predicates, we can only keep one if they are all the same
+        // If there are many equality predicates, we can only keep one if they are all the same.
+        // The literal may be on either side (`a = 1` and `1 = a` are the same predicate),
+        // so compare the literal values rather than the expressions.
+        let eq_literal = |e: &Expr| match e {
+            Expr::BinaryExpr(BinaryExpr { left, right, .. }) => {
+                right.as_literal().or_else(|| left.as_literal()).cloned()
+            }
+            _ => None,
+        };
+        let first_literal = eq_literal(&eq_predicates[0]);
         if eq_predicates.len() == 1
-            || eq_predicates.iter().all(|e| e == &eq_predicates[0])
+            || (first_literal.is_some()
+                && eq_predicates.iter().all(|e| eq_literal(e) == first_literal))
         {
             result.push(eq_predicates.pop().unwrap());
         } else {
